@@ -1,6 +1,10 @@
 pub mod parse_props;
 pub mod read_props;
 pub mod xform_props;
+pub mod ops_props;
+pub mod del_props;
+pub mod hdr_props;
+pub mod synth_props;
 
 use crate::runner::{Ctx, KnownFindings, Report};
 
@@ -20,5 +24,12 @@ pub fn registry() -> Vec<(&'static str, CheckFn, ReplayFn)> {
         ("C05", xform_props::check_c05, xform_props::replay_c05),
         ("C06", xform_props::check_c06, xform_props::replay_c06),
         ("C07", xform_props::check_c07, xform_props::replay_c07),
+        ("C08", ops_props::check_c08, ops_props::replay_c08),
+        ("C09", ops_props::check_c09, ops_props::replay_c09),
+        ("C10", ops_props::check_c10, ops_props::replay_c10),
+        ("C11", del_props::check_c11, del_props::replay_c11),
+        ("C12", hdr_props::check_c12, hdr_props::replay_c12),
+        ("C13", synth_props::check_c13, synth_props::replay_c13),
+        ("C14", synth_props::check_c14, synth_props::replay_c14),
     ]
 }
